@@ -1,5 +1,5 @@
 (* C09/Instances.v -- spaces satisfying [SpaceLaws] (so that no theorem of
-   Props.v is vacuous), and the witness for the refuted overload statement. *)
+   Props.v is vacuous). *)
 From Coq Require Import Reals Lra Psatz List Bool.
 From Verif Require Import Base.Num C09.Model C09.IPS C09.Proofs.
 Local Open Scope R_scope.
@@ -17,23 +17,14 @@ Proof.
     intros x y. replace (/ w * (w * x * x) * (w * y * y)) with (w * (x * y) * (x * y)) by (field; lra). lra.
 Qed.
 
-(* Witness: with the constant ignored by the is_linear flag of
-   FunctionalQuadraticPerturb (variant false), f * s is not x -> f(s x). *)
+(* The former refutation witness (finding quadraticperturb-linear-flag-constant,
+   repaired in /repo aef4c15): it is no longer flagged linear. *)
 Definition qp_witness : Rexpr (R1 1) :=
   FQuadPert (FLeaf (leaf_const (R1 1) 0)) 0 None 1.
-
-Lemma qp_witness_flagged_linear : is_linear (mkVariants false) qp_witness = true.
+Lemma qp_witness_not_linear : is_linear qp_witness = false.
 Proof.
-  cbn; numR. destruct (Reqb_spec 0 0) as [_|Hn]; [reflexivity|exfalso; apply Hn; reflexivity].
-Qed.
-
-Lemma qp_mul_scalar_refuted :
-  exists (S : RSpace) (e : Rexpr S) (s : R) (x : car S), SpaceLaws S /\
-    value (f_mul_scalar (mkVariants false) e s) x <> value e (sscal S s x).
-Proof.
-  exists (R1 1), qp_witness, 2, 1. split; [apply R1_laws; lra|].
-  unfold f_mul_scalar. rewrite qp_witness_flagged_linear. numR.
-  destruct (Reqb_spec 2 0) as [E|_]; [lra|]. cbn; numR. lra.
+  cbn; numR. destruct (Reqb_spec 0 0) as [_|Hn]; [|exfalso; apply Hn; reflexivity].
+  destruct (Reqb_spec 1 0) as [E|_]; [lra|reflexivity].
 Qed.
 
 (* a tree using every constructor that is smooth at every point of R1 w *)
